@@ -95,4 +95,10 @@ example :
     (runActs (regFirstOf Gen.tr_Lock) s1 (lockActs 2 false true)) = (s1, false) ∧
     (runActs (regFirstOf Gen.tr_Lock) init (lockActs 1 true false)) = (s1, true) := by decide
 
+/-- FAIL CLOSED (second audit pass, X2/X3): the tie theorems of this file are about the
+definition(s) TRANSLATED FROM THE TREE UNDER TEST, not about the committed default the
+extractor falls back to when the source leaves the translated subset – in that
+case this obligation breaks and `./check` reports it (besides the note). -/
+theorem translated_from_tree_under_test : Gen.tr_Lock_extracted = true := by decide
+
 end Props.C15
